@@ -113,6 +113,7 @@ type Exec struct {
 	nextObj   int
 	nextEpoch int
 	nextState int
+	statesAtStart int
 	Boot      *State
 	HarnessPk *ssa.Package
 
@@ -144,6 +145,7 @@ type Exec struct {
 	BigWidth    int
 	invCount    int
 	IntConversions int
+	TotalSteps  int
 	LazyAll     bool
 	LazyForks   int
 	Trace       bool
@@ -202,7 +204,11 @@ func (ex *Exec) resetRun() {
 	ex.Errors = nil
 	ex.UnknownBr, ex.Merges, ex.MergeFails, ex.Forks, ex.PathsDone, ex.Infeasibles = 0, 0, 0, 0, 0, 0
 	ex.Funcs = map[string]bool{}
+	ex.TotalSteps = 0
+	ex.statesAtStart = ex.nextState
 }
+
+func (ex *Exec) StatesCreated() int { return ex.nextState - ex.statesAtStart }
 
 func (ex *Exec) newEpoch() int { ex.nextEpoch++; return ex.nextEpoch }
 
@@ -830,6 +836,7 @@ func (ex *Exec) posOf(s *State) string {
 // otherwise the successor states (and the join point if merging applies).
 func (ex *Exec) step(s *State) ([]*State, *stopPoint) {
 	s.Steps++
+	ex.TotalSteps++
 	if s.Steps > ex.MaxSteps {
 		s.Status, s.Msg = Errored, "UNWIND step limit exceeded"
 		return nil, nil
